@@ -114,7 +114,7 @@ func checkC12(w *World, r *Report) {
 
 	// ---------------------------------------------------------------- R12.1
 	var serverEntry *ssa.Function
-	for fn := range allModuleFuncs(w, w.SSA()) {
+	for _, fn := range sortedModuleFuncs(w, w.SSA()) {
 		for _, c := range callsIn(fn) {
 			f := sCallee(c)
 			if f == nil || f.Pkg() == nil || f.Pkg().Path() != "github.com/miekg/dns" || (f.Name() != "HandleFunc" && f.Name() != "Handle") {
@@ -157,7 +157,7 @@ func checkC12(w *World, r *Report) {
 			if e.name == "client" {
 				if obj, ok := e.fn.Object().(*types.Func); ok {
 					var callers []*ssa.Function
-					for fn := range allModuleFuncs(w, w.SSA()) {
+					for _, fn := range sortedModuleFuncs(w, w.SSA()) {
 						for _, c := range callsIn(fn) {
 							if sCallee(c) == obj {
 								callers = append(callers, fn)
@@ -372,7 +372,7 @@ func c12CommandTable(w *World, r *Report) {
 		key := "field:commands.Command." + ff.Name()
 		ninv := 0
 		bad := ""
-		for fn := range allModuleFuncs(w, w.SSA()) {
+		for _, fn := range sortedModuleFuncs(w, w.SSA()) {
 			for _, c := range callsIn(fn) {
 				cc := c.Common()
 				if cc.IsInvoke() || cc.StaticCallee() != nil {
